@@ -38,9 +38,12 @@ class IdxCtx:
     get uid = rank of hash(idx) among them (so that uid order = the hash tie-break order of
     sort_idx_canonical).  All indices of one comparison have to go through the same context."""
 
-    def __init__(self):
+    def __init__(self, registered_zero=False):
+        # registered_zero: the registry index always gets uid 0 (needed when exports of different processes are compared;
+        # the default - pure hash rank - reproduces the tie-break order of sort_idx_canonical)
         self.groups = {}
         self.frozen = None
+        self.registered_zero = registered_zero
 
     def note(self, idx):
         if not isinstance(idx, Index):
@@ -56,8 +59,15 @@ class IdxCtx:
         self.frozen = {}
         for key, g in self.groups.items():
             g.sort(key=hash)
+            if self.registered_zero:
+                reg = [o for o in g if Indices().is_cached_index(o)]
+                rest = [o for o in g if not Indices().is_cached_index(o)]
+                g = reg + rest
+                if not reg:
+                    g = [None] + rest
             for r, o in enumerate(g):
-                self.frozen[id(o)] = r
+                if o is not None:
+                    self.frozen[id(o)] = r
 
     def conv(self, idx):
         name = idx.name
